@@ -27,10 +27,15 @@ def _reader_structure(p: Program, rep: Report):
     maxsplit = None
     unq = None
     strip_args: List[str] = []
-    for c in calls_in(fn):
+    # the reader is the accessor together with the repository functions it hands the header text to (a parser moved to
+    # baize.utils, a private splitter generator ...)
+    unit = with_helpers(p, fn, depth=3, policy=lambda fi: fi.module.name.startswith("baize") and fi.cls is None and not fi.is_async)
+    for f_u in unit:
+        rep.analysed(f_u.fq)
+    for c, f_u in [(c_, f_) for f_ in unit for c_ in calls_in(f_)]:
         f = c.func
         if isinstance(f, ast.Attribute) and f.attr == "split" and c.args and isinstance(c.args[0], ast.Constant):
-            if isinstance(getattr(c, "_parent", None), ast.For) or pair_sep is None and "header" in ast.unparse(f.value):
+            if isinstance(getattr(c, "_parent", None), (ast.For, ast.comprehension)) or pair_sep is None and "header" in ast.unparse(f.value):
                 pair_sep = c.args[0].value
             else:
                 kv_sep = c.args[0].value
@@ -44,7 +49,7 @@ def _reader_structure(p: Program, rep: Report):
             maxsplit = 1
         elif isinstance(f, ast.Attribute) and f.attr == "strip":
             strip_args.append(ast.unparse(c.args[0]) if c.args else "")
-        r = p.resolve_call(fn, c)
+        r = p.resolve_call(f_u, c)
         if isinstance(r, tuple) and r[0] == "ext" and "unquote" in r[1]:
             unq = r[1]
     return fn, pair_sep, kv_sep, maxsplit, strip_args, unq
@@ -288,8 +293,28 @@ def run(p: Program, rep: Report, tier: str) -> None:
                 parts_ = ast_text_parts(p, s.module, n)
                 if parts_ and len(parts_) == 2 and parts_[0][0] == "const" and isinstance(parts_[0][1], str) and parts_[0][1].lower() == "max-age=" and parts_[1] == ("attr", ("param", "self"), "max_age"):
                     ok_ma = True
+    # ... or as an attribute pair ("max-age", <text of self.max_age>) that a generic `name + "=" + text` joiner serialises
+    pair_ma = joiner = False
+    SELF_MA = ("attr", ("param", "self"), "max_age")
+    for f_ in s_unit:
+        for n in ast.walk(f_.node):
+            if isinstance(n, ast.Tuple) and len(n.elts) == 2 and isinstance(n.elts[0], ast.Constant) and isinstance(n.elts[0].value, str) and n.elts[0].value.lower() == "max-age":
+                v_ = n.elts[1]
+                if isinstance(v_, ast.Call) and isinstance(v_.func, ast.Name) and v_.func.id == "str" and len(v_.args) == 1:
+                    v_ = v_.args[0]
+                pv_ = ast_text_parts(p, s.module, v_) if isinstance(v_, (ast.JoinedStr, ast.BinOp, ast.Call)) else None
+                if pv_ == [SELF_MA] or pv_ == (SELF_MA,) or (isinstance(v_, ast.Attribute) and ast.unparse(v_) == "self.max_age"):
+                    pair_ma = True
+            if isinstance(n, (ast.JoinedStr, ast.BinOp)):
+                parts_ = ast_text_parts(p, s.module, n)
+                if parts_ and len(parts_) == 3 and parts_[1] == ("const", "=") and parts_[0][0] != "const" and parts_[2][0] != "const":
+                    joiner = True
     if ok_ma:
         rep.ok("R16.4", "serialised as max-age={self.max_age}")
+    elif pair_ma and joiner:
+        rep.ok("R16.4", "serialised as the attribute pair ('max-age', self.max_age) joined with '='")
+    elif pair_ma:
+        rep.undecide("R16.4", "Max-Age is kept as an attribute pair ('max-age', self.max_age) but the code that joins pairs into text is not recognised")
     else:
         rep.violation("R16.4", construct(s, text="max-age line"), where(s), "Max-Age attribute is not serialised as max-age={self.max_age}")
     # delete_cookie
